@@ -451,7 +451,7 @@ type RawReq struct {
 	Path   string              `json:"path"`
 	Query  string              `json:"query,omitempty"`
 	Hdr    map[string][]string `json:"hdr,omitempty"`
-	Body   string              `json:"body,omitempty"`
+	Body   []byte              `json:"body,omitempty"` // base64 in JSON: bodies are arbitrary bytes
 	CL     int64               `json:"cl"`
 	Addr   string              `json:"addr,omitempty"`
 }
